@@ -54,6 +54,7 @@ pub fn run_case(ctx: &mut Ctx, fam: &str, _k: u64, r: &mut Rng) {
         Ok(h) => h,
         Err(_) => return,
     };
+    h.track_slots = false;
     let steps = ctx.tier.n(30, 60) as usize;
     let mut kinds: Vec<&'static str> = vec![];
     let mut nontrivial = false;
